@@ -115,6 +115,8 @@ def run_case(case):
         script = pool[idx % len(pool)]
     elif kind == "boundary":
         script = corpus.boundary_scripts()[idx % len(corpus.boundary_scripts())]
+    elif kind == "usesite":
+        script = corpus.helper_use_site_scripts()[idx % len(corpus.helper_use_site_scripts())]
     elif kind == "lists":
         from ..gen import lists
         script = lists.generate((PROP, sd, "lists", idx, ()), ())["source"]
@@ -169,9 +171,9 @@ def main() -> int:
     t = tier()
     sd = seed()
     if t == "quick":
-        cases = [("prog", i, sd, i % 8 == 0) for i in range(300)] + [("device", i, sd, i % 3 == 0) for i in range(180)] + [("strings", i, sd, i % 2 == 0) for i in range(120)] + [("poly", i, sd, i % 4 == 0) for i in range(120)] + [("ctx", i, sd, i % 4 == 0) for i in range(260)] + [("lists", i, sd, i % 4 == 0) for i in range(60)] + [("boundary", i, sd, i % 4 == 0) for i in range(len(corpus.boundary_scripts()))]
+        cases = [("prog", i, sd, i % 8 == 0) for i in range(300)] + [("device", i, sd, i % 3 == 0) for i in range(180)] + [("strings", i, sd, i % 2 == 0) for i in range(120)] + [("poly", i, sd, i % 4 == 0) for i in range(120)] + [("ctx", i, sd, i % 4 == 0) for i in range(260)] + [("lists", i, sd, i % 4 == 0) for i in range(60)] + [("boundary", i, sd, i % 4 == 0) for i in range(len(corpus.boundary_scripts()))] + [("usesite", i, sd, True) for i in range(len(corpus.helper_use_site_scripts()))]
     else:
-        cases = [("prog", i, sd, i % 4 == 0) for i in range(3000)] + [("device", i, sd, i % 2 == 0) for i in range(2000)] + [("strings", i, sd, True) for i in range(1000)] + [("poly", i, sd, i % 2 == 0) for i in range(1000)] + [("ctx", i, sd, True) for i in range(260)] + [("lists", i, sd, i % 2 == 0) for i in range(600)] + [("boundary", i, sd, True) for i in range(len(corpus.boundary_scripts()))]
+        cases = [("prog", i, sd, i % 4 == 0) for i in range(3000)] + [("device", i, sd, i % 2 == 0) for i in range(2000)] + [("strings", i, sd, True) for i in range(1000)] + [("poly", i, sd, i % 2 == 0) for i in range(1000)] + [("ctx", i, sd, True) for i in range(260)] + [("lists", i, sd, i % 2 == 0) for i in range(600)] + [("boundary", i, sd, True) for i in range(len(corpus.boundary_scripts()))] + [("usesite", i, sd, True) for i in range(len(corpus.helper_use_site_scripts()))]
     for case, st, res in run_cases(run_case, cases):
         if st != "ok":
             rep.inconclusive_because(f"case {case[:2]} failed: {res[-300:]}")
